@@ -40,3 +40,29 @@ Proof.
 Qed.
 Print Assumptions gen_try_read_100_ok.
 
+
+(* ------------------------------------------------------------------ what an error of try_read_100 leaves behind *)
+(** [gen_try_read_100_errst] is the translation of the same Rust function in "error-state mode": the values of the three fields at
+    the point where it returns an error.  They are the model's: an error still clears [await_100_continue], nothing else changes. *)
+Lemma gen_try_read_100_errst_ok f input f' e :
+  try_read_100 f input = (f', Err e) ->
+  gen_try_read_100_errst (i_reasons f) (i_should_send_body f) (i_await_100 f) (parsed_of (try_parse_response 0 input))
+  = Some (i_reasons f', i_should_send_body f', i_await_100 f').
+Proof.
+  unfold try_read_100, gen_try_read_100_errst, parsed_of, refuse, set_await.
+  destruct f as [c h rs0 ssb aw st loc]. cbn [i_reasons i_should_send_body i_await_100 i_call i_holder i_status i_location].
+  destruct (try_parse_response 0 input) as [[[used r]|]|e0|s].
+  - destruct (N.eqb_spec (rs_status r) 100) as [E|E].
+    + destruct ssb; intros H; inversion H.
+    + unfold add_reason, push_reason. destruct (existsb (reason_eqb Not100Continue) rs0); cbn [bind]; [intros H; inversion H|].
+      destruct (CLOSE_REASON_CAP <=? len rs0); cbn [bind]; intros H; inversion H.
+  - intros H; inversion H.
+  - destruct (err_eqb e0 HttpParseTooManyHeaders) eqn:Ee.
+    + apply err_eqb_too_many in Ee. subst e0.
+      unfold add_reason, push_reason. destruct (existsb (reason_eqb Not100Continue) rs0); cbn [bind]; [intros H; inversion H|].
+      destruct (CLOSE_REASON_CAP <=? len rs0); cbn [bind]; intros H; inversion H.
+    + assert (Hne : e0 <> HttpParseTooManyHeaders) by (intros ->; vm_compute in Ee; discriminate).
+      destruct e0; try congruence; intros H; inversion H; subst; reflexivity.
+  - intros H; inversion H.
+Qed.
+Print Assumptions gen_try_read_100_errst_ok.
